@@ -15,24 +15,24 @@ CHECKS = {
     ),
     "C05": dict(
         category="proof",
-        text="Lean 4 theorems (C05.*): forward-mode dual numbers over the same polymorphic model; HasDerivAt proofs that the tangents of the focusing functions and of R[1,0] are the true derivatives for k>0, that the guard passes tangents for k1 != 0 and kills them at k1 == 0 (known finding). Tie: torch.autograd gradients of all 49 map entries w.r.t. every quadrupole parameter vs the model's tangents at Dual Float (agree incl. guard points). Falsifier: autograd vs central finite differences for every class/parameter/beam type incl. exact-zero points.",
+        text="Lean 4 theorems (C05.*): forward-mode dual numbers over the same polymorphic model; HasDerivAt proofs that the tangents of the focusing functions and of R[1,0] are the true derivatives for k>0, that the guard passes tangents for k1 != 0 and kills them at k1 == 0 (known finding). Tie: torch.autograd gradients of all 49 map entries w.r.t. every quadrupole parameter vs the model's tangents at Dual Float (agree incl. guard points). Falsifier: autograd vs central finite differences for every class/parameter/beam type incl. exact-zero points. Added: soundness of forward-mode differentiation operation by operation (Tracks: + - * / neg sin cos sinh cosh exp atan sqrt log abs preserve (value, derivative) at every point of differentiability) and an end-to-end instance through a guarded model function (gradient of the drift R56 w.r.t. the beam energy).",
         design="§5 C05",
         note='Trusted: Lean 4.33 kernel, Mathlib; axioms propext/Classical.choice/Quot.sound only (audited each run); instance Scalar ℝ; real-number semantics (round-off outside the theorems, covered by double-vs-double correspondence); harness generators; partial: reverse-mode engine (NaN from unselected branches) not modelled; derivative proofs cover the focusing functions only.',
         technique='Lean 4 proof (HasDerivAt of dual-number tangents) + autograd correspondence + finite-difference falsifier',
     ),
     "C06": dict(
         category="proof",
-        text='Lean 4 theorems (C06.*): for every 7x7 map the sample mean/unbiased covariance of the mapped particles equal M mu, M Sigma M^T (all 6 means, 21 second moments); lifted to every skippable element kind and every nested all-skippable segment of the model; energy agreement for all kinds incl. active cavities; PSD/symmetry preserved; active-cavity transverse rows linear. Tie: Element.track of both beam types vs Elem.trackP/trackM (incl. cavity formulas). Falsifier: moments of tracked particles vs tracked moments on the real code.',
+        text='Lean 4 theorems (C06.*): for every 7x7 map the sample mean/unbiased covariance of the mapped particles equal M mu, M Sigma M^T (all 6 means, 21 second moments); lifted to every skippable element kind and every nested all-skippable segment of the model; energy agreement for all kinds incl. active cavities; PSD/symmetry preserved; active-cavity transverse rows linear. Tie: Element.track of both beam types vs Elem.trackP/trackM (incl. cavity formulas). Falsifier: moments of tracked particles vs tracked moments on the real code. Falsifier additionally: vectorised element / beam / both, diagnostics (active, misaligned), CustomTransferMap with a general 6x6 block, elements re-tuned with the same beam object.',
         design="§5 C06",
         note='Trusted: Lean 4.33 kernel, Mathlib; axioms propext/Classical.choice/Quot.sound only (audited each run); instance Scalar ℝ; real-number semantics (round-off outside the theorems, covered by double-vs-double correspondence); harness generators; element contracts of the real classes are sampled.',
         technique='Lean 4 proof (list-sum algebra over Mathlib matrices) + track correspondence + moment falsifier',
     ),
     "C07": dict(
         category="proof",
-        text='Lean 4 theorems (C07.*): the Bmad-X drift kernel is an exact flow (pieces compose, zero length = identity), so is the Drift element incl. the tau/delta<->z/pz conversions; straight-line motion formula; momenta untouched; TransverseDeflectingCavity at 0 V = Bmad-X drift in its frame. Tie: single particles through the real Bmad-X Drift/Quadrupole/Dipole/TDC and conversions vs CheetahModel.Bmadx at Float. Falsifier: autograd Jacobian vs linear map, piece composition for quadrupole/bend, uniform-field motion.',
+        text='Lean 4 theorems (C07.*): the Bmad-X drift kernel is an exact flow (pieces compose, zero length = identity), so is the Drift element incl. the tau/delta<->z/pz conversions; straight-line motion formula; momenta untouched; TransverseDeflectingCavity at 0 V = Bmad-X drift in its frame. Tie: single particles through the real Bmad-X Drift/Quadrupole/Dipole/TDC and conversions vs CheetahModel.Bmadx at Float. Falsifier: autograd Jacobian vs linear map, piece composition for quadrupole/bend, uniform-field motion. Added: the Bmad-X quadrupole body is an exact flow in all six coordinates for either sign of k1 (hence independent of num_steps; at the regularisation eps = 0), and the Jacobian of the Bmad-X Drift about the design orbit equals the linear drift map (R12 = R34 = L, R56, unit diagonal, vanishing cross terms), obtained by verified forward-mode differentiation of the model (tactic tracks_all).',
         design="§5 C07",
-        note='Trusted: Lean 4.33 kernel, Mathlib; axioms propext/Classical.choice/Quot.sound only (audited each run); instance Scalar ℝ; real-number semantics (round-off outside the theorems, covered by double-vs-double correspondence); harness generators; partial: quadrupole-step flow, bend-body exactness and Jacobian = linear map are falsifier-only.',
-        technique='Lean 4 proof (real analysis of the drift kernel) + kernel correspondence + Jacobian/flow falsifier',
+        note='Trusted: Lean 4.33 kernel, Mathlib; axioms propext/Classical.choice/Quot.sound only (audited each run); instance Scalar ℝ; real-number semantics (round-off outside the theorems, covered by double-vs-double correspondence); harness generators; partial: bend-body exactness and the Jacobians of quadrupole and dipole are falsifier-only.',
+        technique='Lean 4 proof (real analysis of the drift kernel, polynomial flow identity of the quadrupole step, verified forward-mode differentiation) + kernel correspondence + Jacobian/flow falsifier',
     ),
     "C09": dict(
         category="proof",
@@ -71,7 +71,7 @@ CHECKS = {
     ),
     "C14": dict(
         category="proof",
-        text='Lean 4 theorems (C14.*): parse_segment(convert_segment l) = l for every uniquely named segment tree - any nesting depth, sub-segments in any position, order/names/classes/parameters preserved (model of latticejson.py, core Lean, induction over trees); and by decide over the live classes of /repo: defining_features cover exactly the constructor parameters of every element class. Falsifier: save / json.load / reload of random nested segments with every class and non-default attribute, track equality, file layout.',
+        text='Lean 4 theorems (C14.*): parse_segment(convert_segment l) = l for every uniquely named segment tree - any nesting depth, sub-segments in any position, order/names/classes/parameters preserved (model of latticejson.py, core Lean, induction over trees); and by decide over the live classes of /repo: defining_features cover exactly the constructor parameters of every element class. Falsifier: save / json.load / reload of random nested segments with every class and non-default attribute, track equality, file layout. Tie added: the real convert_segment / parse_segment vs NLat.conv / NLat.parse on random named trees (unique and colliding names): both dictionaries entry by entry and the tree read back.',
         design="§5 C14",
         note='Trusted: Lean 4.33 kernel, Mathlib; axioms propext/Classical.choice/Quot.sound only (audited each run); instance Scalar ℝ; real-number semantics (round-off outside the theorems, covered by double-vs-double correspondence); harness generators; json / tolist / torch.tensor round trip of values is trusted (observed by the falsifier).',
         technique='Lean 4 proof (round trip by structural induction) + decide over translator tables + save/load falsifier',
@@ -106,14 +106,14 @@ CHECKS = {
     ),
     "C19": dict(
         category="proof",
-        text="Lean 4 theorems (C19.*): with the kick's structure dt * sum_j w_j g(i,j) (g arbitrary position-only kernel) the momentum kick is proportional to charge and to length, vanishes for zero charge, ignores lost particles as sources; the CIC deposit is linear in the charges; positions are unchanged by a kick applied in SI coordinates. Tie: the real CIC deposit vs cicDeposit. Falsifier: relations between runs on the real code, outward push, uniform-sphere field.",
+        text="Lean 4 theorems (C19.*): with the kick's structure dt * sum_j w_j g(i,j) (g arbitrary position-only kernel) the momentum kick is proportional to charge and to length, vanishes for zero charge, ignores lost particles as sources; the CIC deposit is linear in the charges; positions are unchanged by a kick applied in SI coordinates. Tie: the real CIC deposit vs cicDeposit. Falsifier: relations between runs on the real code, outward push, uniform-sphere field. Added: the deposited density and hence every kick is independent of the storage order, CIC weights are non-negative and sum to one, density x cell volume summed over the grid equals the deposited charge. Falsifier additionally: re-used element vs fresh element, float32 kick vs float64 kick up to 17 GeV.",
         design="§5 C19",
         note='Trusted: Lean 4.33 kernel, Mathlib; axioms propext/Classical.choice/Quot.sound only (audited each run); instance Scalar ℝ; real-number semantics (round-off outside the theorems, covered by double-vs-double correspondence); harness generators; partial: the Poisson solve/gather are abstracted; outward push and analytic field are falsifier-only.',
         technique='Lean 4 proof (linearity of the kick structure) + deposit correspondence + relational falsifier',
     ),
     "C20": dict(
         category="proof",
-        text='Lean 4 theorems (C20.*): every pixel a particle can fall into lies within (H/b, W/b); its bin contains (x-dx, y-dy) (half-open, last closed); row 0 is the top; BPM reads the centroid; the reading reflects the last beam for every history; inactive diagnostics pass the beam. Tie: single particles on random non-square/binned/misaligned screens: lit pixel and shape vs pixelOf. Falsifier: both methods, both beam types, vectorised kde, BPM.',
+        text='Lean 4 theorems (C20.*): every pixel a particle can fall into lies within (H/b, W/b); its bin contains (x-dx, y-dy) (half-open, last closed); row 0 is the top; BPM reads the centroid; the reading reflects the last beam for every history; inactive diagnostics pass the beam. Tie: single particles on random non-square/binned/misaligned screens: lit pixel and shape vs pixelOf. Falsifier: both methods, both beam types, vectorised kde, BPM. Added: in histogram mode the image sums to the weight (charge x survival) of the particles inside the screen, pixel values are non-negative; tie: whole histogram images of several weighted particles vs histImage / histTotal. Falsifier additionally: readings after the screen`s settings or the upstream aperture changed.',
         design="§5 C20",
         note='Trusted: Lean 4.33 kernel, Mathlib; axioms propext/Classical.choice/Quot.sound only (audited each run); instance Scalar ℝ; real-number semantics (round-off outside the theorems, covered by double-vs-double correspondence); harness generators; partial: KDE / ParameterBeam / vectorised images are falsifier-only.',
         technique='Lean 4 proof (bin-search specification, cache invariant) + pixel correspondence + falsifier',
@@ -156,7 +156,7 @@ CHECKS = {
              "identities), quadrupole flow with conjugated generator, misalignment acts as v->R(v-d)+d, drift R56 = "
              "-L/(beta^2 gamma^2), edges are the thin-lens formulas, correctors = drift + kick of exactly the angle. The "
              "model is tied to /repo by the 49-entry double-vs-double correspondence per element class on every run; a "
-             "falsifier compares transfer_map with scipy expm(L*A) built independently.",
+             "falsifier compares transfer_map with scipy expm(L*A) built independently. Added: the solenoid map is a one-parameter group and solves dR/dL = A_sol R for every entry at every length (both branches k = 0 / k != 0), with the generator read as the solenoid's equations of motion. Falsifier also probes the context in which the map reaches the beam (alone / in a Segment / between mergeable or non-mergeable neighbours / nested; tracked twice; re-tuned with the same beam object) and that diagnostics leave coordinates and the incoming beam untouched.",
         design="§5 C02",
         note="Trusted: Lean kernel, Mathlib, propext/Classical.choice/Quot.sound; instance Scalar ℝ; real semantics "
              "(round-off covered by correspondence only); uniqueness of linear ODE solutions is cited, not proved; edge "
@@ -169,7 +169,7 @@ CHECKS = {
              "and energies above rest energy, det = 1 and volume invariance for every symplectic map, cavity transverse "
              "determinant = E_in/E_out, seventh row/component; the model is tied to /repo on every run by a bit-exact "
              "double-vs-double correspondence of all 49 map entries per element class; a falsifier checks "
-             "M^T S6 M = S6, the seventh row and the cavity area ratio on the real code.",
+             "M^T S6 M = S6, the seventh row and the cavity area ratio on the real code. Falsifier additionally: autograd Jacobians of the Bmad-X maps at random paraxial points (bends up to 2.6 rad) against J^T S J = S, every entry of vectorised maps, cavities re-tuned between two passes of the same beam object.",
         design="§5 C03",
         note="Trusted: Lean kernel, Mathlib, axioms propext/Classical.choice/Quot.sound; instance Scalar ℝ; real-number "
              "semantics (round-off not proved, covered by the correspondence at 256 eps); harness generators. "
